@@ -64,6 +64,20 @@ pub fn op(st: &mut State, args: &[&str]) -> String {
             dump(&st.a)
         }
         ["dump"] => dump(&st.a),
+        #[cfg(feature = "serde")]
+        ["serde"] => {
+            let js = match serde_json::to_string(&st.a) { Ok(j) => j, Err(e) => return format!("SERDE ser-error {e}") };
+            match serde_json::from_str::<Airplanes>(&js) {
+                Ok(b) => {
+                    let (x, y) = (format!("{:?}", st.a), format!("{b:?}"));
+                    if x == y { "SERDE same".into() } else {
+                        let i = x.bytes().zip(y.bytes()).position(|(p, q)| p != q).unwrap_or(0);
+                        format!("SERDE DIFF at {}: ...{} | ...{}", i, &x[i.saturating_sub(60)..(i + 40).min(x.len())], &y[i.saturating_sub(60)..(i + 40).min(y.len())])
+                    }
+                }
+                Err(e) => format!("SERDE de-error {e}"),
+            }
+        }
         _ => "BADOP".into(),
     }
 }
